@@ -83,6 +83,7 @@ static void setup (const char *init) {
 	nsync_malloc_ptr_ = pool_malloc;
 	{ static void *a_spin, *a_free; if (!a_spin) { a_spin = rt_data_sym ("free_waiters_mu"); a_free = rt_data_sym ("free_waiters"); } S.spin = a_spin; S.freeq = a_free; }
 	if (!S.spin || !S.freeq) { fprintf (stderr, "h_pool: free_waiters / free_waiters_mu not found in the symbol table\n"); exit (2); }
+	rt_hb_track (S.freeq, sizeof *S.freeq);     /* the list head is a static of common.c: part of what the spinlock must order (C03) */
 	for (i = 0; i < S.n; i++) rt_spawn (client, (void *) (long) i);
 }
 static const char *kind_of (const char *label) {
@@ -176,6 +177,7 @@ int main (int argc, char **argv) {
 	if (argc < 3) { fprintf (stderr, "usage: h_pool replay <schedule> [violdir] | h_pool from <prefix> <runs> <seed> [violdir]\n"); return 2; }
 	rt_init ();
 	rt_no_exit_dest = 1;
+	if (getenv ("VERIF_HB")) rt_hb_enable (1);
 	rt_snapshot ();
 	memset (&st, 0, sizeof st);
 	f = fopen (argv[2], "r");
